@@ -896,6 +896,12 @@ func ConcatAll[T any]() func(Observable[Observable[T]]) Observable[T] {
 					subscriberCtx,
 					NewObserverWithContext(
 						func(ctx context.Context, source Observable[T]) {
+							// An inner source has failed (or the subscription was cancelled):
+							// do not subscribe to the remaining sources.
+							if subscriptions.IsClosed() {
+								return
+							}
+
 							sub := source.SubscribeWithContext(
 								ctx,
 								NewObserverWithContext(
